@@ -48,6 +48,9 @@ pub fn component(r: &mut Rng) -> u64 {
 
 const ALNUM: &[&str] = &[
     "a", "b", "A", "B", "alpha", "beta", "rc", "a-", "-", "--", "a0", "0a", "a-b", "Z", "z", "x", "pre", "1a", "-1", "a1",
+    // look-alikes of wildcards, of the `v` prefix and of numbers; long identifiers
+    "X", "x1", "xyz", "v", "V", "v1", "vv", "0x", "1e5", "10a01", "a--b", "---",
+    "abcdefghijklmnopqrstuvwxyzABCDEFGHIJKLMNOPQRSTUVWXYZ0123456789-abcdefghijklmnopqrstuvwxyz",
 ];
 
 pub fn identifier(r: &mut Rng) -> Identifier {
@@ -65,7 +68,7 @@ pub fn identifier(r: &mut Rng) -> Identifier {
 }
 
 pub fn idlist(r: &mut Rng, maxlen: u64) -> Vec<Identifier> {
-    let n = 1 + r.below(maxlen);
+    let n = if r.chance(1, 25) { 5 + r.below(5) } else { 1 + r.below(maxlen) };
     (0..n).map(|_| identifier(r)).collect()
 }
 
@@ -77,12 +80,22 @@ pub fn version(r: &mut Rng) -> Version {
     if r.chance(1, 5) {
         v.build = idlist(r, 2);
     }
+    if r.chance(1, 20) && !v.pre_release.is_empty() {
+        v.build = v.pre_release.clone();
+    }
+    if r.chance(1, 20) {
+        v.patch = 10u64.pow(r.below(15) as u32);
+    }
     v
 }
 
 /// A pool of versions around one tuple, rich in ties, immediate successors and `-0` bounds.
 pub fn tie_pool(r: &mut Rng) -> Vec<Version> {
-    let (ma, mi, pa) = (component(r), component(r), component(r).min(MAX_SAFE_INTEGER - 2));
+    let (mut ma, mut mi, pa) = (component(r), component(r), component(r).min(MAX_SAFE_INTEGER - 2));
+    if r.chance(1, 10) {
+        ma = pa;
+        mi = pa;
+    }
     let tag = idlist(r, 2);
     let mut tag0 = tag.clone();
     tag0.push(Identifier::Numeric(0));
@@ -114,8 +127,13 @@ pub fn tie_pool(r: &mut Rng) -> Vec<Version> {
 
 fn bound(r: &mut Rng, v: &Version) -> VerifSide {
     let mut v = v.clone();
-    if r.chance(1, 12) {
-        v.build = vec![Identifier::AlphaNumeric("b".into())];
+    if r.chance(1, 8) {
+        // a small set of build suffixes, so that both bounds of an interval often carry the same one
+        v.build = match r.below(3) {
+            0 => vec![Identifier::AlphaNumeric("b".into())],
+            1 => vec![Identifier::AlphaNumeric("b".into()), Identifier::Numeric(7)],
+            _ => vec![Identifier::Numeric(0)],
+        };
     }
     Some((r.chance(1, 2), v))
 }
@@ -144,7 +162,7 @@ pub fn range_struct(r: &mut Rng, pool: &[Version], maxalts: u64) -> Value {
 fn ranges<W: Write>(r: &mut Rng, n: usize, out: &mut W) -> usize {
     for _ in 0..n {
         let pool = tie_pool(r);
-        let wide = if r.chance(1, 8) { 5 } else { 3 };
+        let wide = match r.below(16) { 0 => 8, 1 | 2 => 5, _ => 3 };
         let a = range_struct(r, &pool, wide);
         let b = if r.chance(1, 3) { range_struct(r, &pool, 1) } else { range_struct(r, &pool, 3) };
         writeln!(out, "{}", json!({"op":"pair","A":a,"B":b})).unwrap();
@@ -160,10 +178,11 @@ fn vjson(v: &Version) -> Value {
 /// near-identical identifiers: differ only in case / digits / hyphens
 fn confusable_ids(r: &mut Rng) -> (Vec<Identifier>, Vec<Identifier>) {
     const FAM: &[&str] = &["a", "A", "a-", "a0", "a1", "a10", "a2", "-a", "aa", "aA", "Aa", "a--", "a-0", "0a", "00a"];
-    let n = 1 + r.below(4) as usize;
+    let n = if r.chance(1, 6) { 5 + r.below(5) as usize } else { 1 + r.below(4) as usize };
     let mut x: Vec<Identifier> = (0..n).map(|_| identifier(r)).collect();
     let mut y = x.clone();
-    let k = r.below(n as u64) as usize;
+    // the difference sits anywhere, often at the very end of a long list
+    let k = if r.chance(1, 3) { n - 1 } else { r.below(n as u64) as usize };
     match r.below(5) {
         4 => {
             // adjacent large numerics: equal as f64, different as integers
@@ -745,21 +764,26 @@ fn alt_ast(r: &mut Rng, pool: &[u64], tag_pool: &[Vec<String>], allow_hyphen: bo
         parts.push(hi);
         return (j, text, true);
     }
-    let n = match r.below(10) {
-        0..=3 => 1,
-        4..=7 => 2,
-        8 => 3,
-        _ => 4,
+    let n = match r.below(20) {
+        0..=7 => 1,
+        8..=14 => 2,
+        15 | 16 => 3,
+        17 => 4,
+        18 => 5,
+        _ => 7,
     };
     let mut cs = Vec::new();
     let mut seps = Vec::new();
     let mut text = String::new();
     for i in 0..n {
         if i > 0 {
-            let sep = match r.below(8) {
+            let sep = match r.below(12) {
                 0 => "  ",
                 1 => "   ",
                 2 => "\t",
+                3 => "     ",
+                4 => " \t",
+                5 => "\t ",
                 _ => " ",
             };
             seps.push(bytes(sep));
@@ -1015,6 +1039,12 @@ fn timing<W: Write>(_r: &mut Rng, n: usize, out: &mut W) -> usize {
         writeln!(out, "{}", json!({"op":"timing","parser":"range","unit":bytes(u),"n":n as u64})).unwrap();
         cnt += 1;
     }
+    // one long token: a fixed prefix followed by the repeated unit
+    for (pre, u) in [("1.2.3-", "a"), (">=1.2.3-", "a."), ("1.2.3+", "b."), ("1.2.3-", "-"), ("^1.2.3-", "0."), ("1.2.3-a+", "+"), ("1.2.3 - 2.0.0-", "a"),
+                     ("<", "1"), ("1.", "0"), ("~>", " "), ("1.2.3||", "|"), ("v", "v"), ("1.2.3-a", ".a-")] {
+        writeln!(out, "{}", json!({"op":"timing","parser":"range","prefix":bytes(pre),"unit":bytes(u),"n":n as u64})).unwrap();
+        cnt += 1;
+    }
     for u in ["1", "1.2.3-a.", " ", "v", "1.2.3+b."] {
         writeln!(out, "{}", json!({"op":"timing","parser":"version","unit":bytes(u),"n":n as u64})).unwrap();
         cnt += 1;
@@ -1106,7 +1136,8 @@ fn rdiffmin<W: Write>(r: &mut Rng, n: usize, out: &mut W) -> usize {
 
 fn rtext<W: Write>(r: &mut Rng, n: usize, out: &mut W) -> usize {
     for _ in 0..n {
-        let (ast, text, vs) = range_ast(r, 3, true);
+        let max_alts = if r.chance(1, 12) { 7 } else { 3 };
+        let (ast, text, vs) = range_ast(r, max_alts, true);
         writeln!(out, "{}", json!({"op":"rparse","dst":1,"text":bytes(&text),"ast":ast,
             "vs":vs.iter().map(ver_to_json).collect::<Vec<_>>()})).unwrap();
     }
